@@ -144,7 +144,8 @@ def handleC06 (inp obs : List String) : Verdict :=
       (if hits.any (fun (r, t) => t.start ≤ r.start && t.stop ≥ r.stop && nbins r bin ≥ 2) then ["tag-spans-all-bins"] else []) ++
       (if regions.isEmpty then ["empty-region-list"] else []) ++
       (if regions.length != regions.eraseDups.length then ["duplicated-regions"] else []) ++
-      (if ops.any (fun | .reset => true | _ => false) then ["reset"] else [])
+      (if ops.any (fun | .reset => true | _ => false) then ["reset"] else []) ++
+      (if regions.any (fun r => r.stop + bin > 18446744073709551615) then ["top-of-range"] else [])
     match o with
     | none => { kind := "specfail", nontrivial, classes, detail := "implementation panicked" }
     | some o =>
